@@ -176,6 +176,44 @@ def odd_command_case(args):
         sc.close()
 
 
+def panic_case(args):
+    """a Go-function task (CustomExecute) that fails by panicking -- with a message or with an error value -- before it has
+    written its declared output: the program exits non-zero, reports no completion, the output is absent, no dependant runs"""
+    seed, i = args
+    rng = random.Random(seed * 32452909 + i)
+    sp = t3.Spec(maxtasks=rng.randint(1, 3), bufsize=rng.choice([1, 128]))
+    L = rng.randint(1, 3)
+    paths = ["pn%d.txt" % j for j in range(L)]
+    for p in paths:
+        sp.files[p] = p + "\n"
+    s = sp.src("src", paths)
+    victim = rng.choice(paths)
+    kind = ["panic", "panicerr"][i % 2]
+    mk = sp.proc(t3.Proc("mk", kind="cattok", ins=[("a", [(s, "out")])], outs=[("o", "{i:a}.mk")], gofunc=True, fail=kind, failkey=victim))
+    sp.proc(t3.RawProc("dep", "echo {i:in} >> ../dep.ran ; cat {i:in} > {o:out}", ins=[("in", [(mk, "o")])], outs=[("out", "{i:in}.dep")]))
+    sc = t3.Scratch()
+    try:
+        sc.plant(sp.files)
+        impl = t3.run_impl(sc, sp, timeout=60)
+        what = "a Go-function task that panics with %s before writing its output" % ("a message" if kind == "panic" else "an error value")
+        problems = []
+        if impl["timed_out"]:
+            problems.append(("hang", "the workflow with %s does not terminate" % what))
+        if impl["rc"] == 0:
+            problems.append(("silent-failure", "%s: the program exits 0%s" % (what, " and reports completion" if impl["returned"] else "")))
+        elif impl["returned"]:
+            problems.append(("completion-reported", "%s: Run returned" % what))
+        if (victim + ".mk") in impl["fs"]:
+            problems.append(("failed-output-appeared", "%s: its output %r is at the final path" % (what, victim + ".mk")))
+        ran = impl["fs"].get("dep.ran")
+        if ran and (victim + ".mk") in (ran[1] or ""):
+            problems.append(("dependant-executed", "%s: the task that depends on its output executed" % what))
+        return {"spec": sp.text(with_files=False)[:4000], "bufsize": sp.bufsize, "problems": problems, "ntasks": 2 * L, "rc": impl["rc"], "stderr": impl["stderr"][-300:],
+                "yield": None, "wall": impl["wall"], "mode": "gofunc-" + kind, "gofunc": True, "status": "fail"}
+    finally:
+        sc.close()
+
+
 def unformable_rerun_case(args):
     """history: a workflow completes; it is started again with a parameter (or tag) value that is now empty, for a task whose
     outputs exist from the first run (their names do not depend on the value): the task cannot be formed, so the program must
@@ -232,6 +270,7 @@ def run(rep, tier, seed):
     results += [r for r in t3.run_many(rerun_case, [(seed, i) for i in range(n // 5)]) if r]
     results += t3.run_many(unformable_rerun_case, [(seed, i) for i in range(n // 10)])
     results += t3.run_many(odd_command_case, [(seed, i) for i in range(n // 10)])
+    results += t3.run_many(panic_case, [(seed, i) for i in range(max(4, n // 20))])
     t3.report_t3(rep, MODULE, proved, results, "T3 failure injection")
     rep.cov["evaluations"] = len(results)
     rep.cov["distinct_nontrivial"] = len({r["spec"] for r in results if r["ntasks"] >= 2})
